@@ -49,6 +49,40 @@ fn main() {
             }
             out.flush().unwrap();
         }
+        "run-vectors" => {
+            // spec -> implementation: run every TLC-generated source text against the model's context
+            let inp = arg(&args, "--in").expect("--in");
+            let mut out = std::io::BufWriter::new(std::fs::File::create(&out_path).expect("open out"));
+            let mut n = 0usize;
+            let mut bad = 0usize;
+            for (i, line) in std::fs::read_to_string(inp).expect("read").lines().enumerate() {
+                if line.trim().is_empty() {
+                    continue;
+                }
+                let j: serde_json::Value = serde_json::from_str(line).expect("vector json");
+                let src = j["src"].as_str().expect("src");
+                let vl: Vec<i64> = j["vl"].as_array().map(|a| a.iter().map(|x| x.as_i64().unwrap()).collect()).unwrap_or_else(|| vec![1, 0, 2]);
+                let vars = drive_eval::env0(&vl);
+                match drive_eval::case_for(i + 1, src, &vars) {
+                    Some(mut c) => {
+                        // the specification judges against the tree it built itself
+                        let o = c.as_object_mut().unwrap();
+                        o.remove("ast");
+                        o.remove("vars");
+                        o.insert("syms".to_string(), j["syms"].clone());
+                        o.insert("vl".to_string(), serde_json::json!(vl));
+                        writeln!(out, "{}", c).unwrap();
+                        n += 1;
+                    }
+                    None => {
+                        writeln!(out, "{}", serde_json::json!({"ev":"case","id":i + 1,"src":src,"syms":j["syms"],"vl":vl,"log":[],"out":{"k":"compile_err"}})).unwrap();
+                        bad += 1;
+                    }
+                }
+            }
+            out.flush().unwrap();
+            eprintln!("run-vectors cases={} not_compiled={}", n, bad);
+        }
         "src" => {
             // run one source text with an empty context (debugging aid / replay)
             let src = arg(&args, "--src").expect("--src");
